@@ -123,6 +123,7 @@ func (tt *typeTable) typeName(t types.Type) string {
 	// byte/uint8 and rune/int32 are the same type: one component per type, whatever the spelling
 	s = strings.ReplaceAll(s, "uint8", "byte")
 	s = strings.ReplaceAll(s, "int32", "rune")
+	s = strings.ReplaceAll(s, "interface{}", "any")
 	return sanitize(s)
 }
 
@@ -212,6 +213,8 @@ func (g *Gen) parseSpecType(s string) (types.Type, error) {
 		return types.Universe.Lookup("error").Type(), nil
 	case "ref":
 		return types.Typ[types.UnsafePointer], nil
+	case "any", "interface{}":
+		return types.NewInterfaceType(nil, nil), nil
 	}
 	if strings.HasPrefix(s, "[]") {
 		el, err := g.parseSpecType(s[2:])
